@@ -16,7 +16,7 @@ func init() {
 		ID: "C09", Fn: c09,
 		Rule:        "one evaluation = one predicate call compared with refchess: HasCheck per position (cached flag exercised before/after do-undo, and after every undo of moves and null moves inside a search-like walk on one position object), IsAttacked and AttacksTo for all 64 squares x both colours (each call under recover), GivesCheck / IsLegalMove / DoMove+WasLegalMove for every pseudo-legal move, the two legality tests also on a position object just set up from the FEN on which nothing else was asked before; distinct = distinct position identities probed",
 		Assumptions: []string{"E1/E2 en-passant conventions: required when the ep capture is legal, tolerated when it is only pseudo-legal, forbidden otherwise (incl. for the colour that just pushed)"},
-		Required:    []string{"positions", "attack_queries", "moves_checked", "ep_target_a_or_h_file", "ep_positions_white_to_move", "ep_positions_black_to_move", "e1_required", "e2_required", "castling_pseudo_illegal", "gives_check_true", "discovered_check_by_ep", "in_check_positions", "walk_hascheck_tests", "walk_null_moves", "cold_legality_tests", "heavy_trade_down_games", "heavy_game_phase_counter_zero_with_sliders"},
+		Required:    []string{"positions", "attack_queries", "moves_checked", "ep_target_a_or_h_file", "ep_positions_white_to_move", "ep_positions_black_to_move", "e1_required", "e2_required", "castling_pseudo_illegal", "gives_check_true", "discovered_check_by_ep", "in_check_positions", "walk_hascheck_tests", "walk_nodes_not_asked_on_entry", "walk_null_moves", "cold_legality_tests", "heavy_trade_down_games", "heavy_game_phase_counter_zero_with_sliders"},
 		MinEvals:    50000,
 	})
 }
@@ -379,7 +379,13 @@ func checkWalk(rep *Rep, r *Rng, p *position.Position, b *rc.Board, depth int, c
 			rep.Viol("HasCheck:walk:"+when, fmt.Sprintf("HasCheck()=%v %s, king attacked=%v in %s (position reached inside a do/undo walk)", got, when, want, b.FEN()), pl)
 		}
 	}
-	test("on-entry")
+	// (not at every node: a position whose in-check status was never asked before a move is
+	// made and taken back must still answer correctly afterwards)
+	if r.Chance(0.5) || depth <= 0 {
+		test("on-entry")
+	} else {
+		rep.Inc("walk_nodes_not_asked_on_entry")
+	}
 	if depth <= 0 {
 		return
 	}
